@@ -212,6 +212,20 @@ def insertByPH (ar : Arena) (x : Nat) : List Nat → List Nat
 
 def sortByPH (ar : Arena) (l : List Nat) : List Nat := l.foldl (fun acc x => insertByPH ar x acc) []
 
+/-- for every branch between the longest and the oldest: the height at which the next branch
+    (towards the tip) forks from it. -/
+def forkHeightsOf (ar : Arena) (ob : Nat) : Nat → Nat → List (Nat × Int)
+  | 0, _ => []
+  | fuel + 1, cur =>
+    if cur = ob then []
+    else
+      match ar[cur]? with
+      | none => []
+      | some c =>
+        match c.parent with
+        | none => []
+        | some p => (p, c.parentHeight) :: forkHeightsOf ar ob fuel p
+
 def consolidate (r : Repo) : M Repo :=
   let oldest := r.branches.find? (fun bi => (r.br bi).parentHeight == -1)
   -- (the `parentHeight < oldestHeight` alternative in the Go loop can never select a branch with
@@ -243,10 +257,23 @@ def consolidate (r : Repo) : M Repo :=
         | .ok (r4, nbs0) =>
           let sorted := sortByPH r4.arena r4.branches
           let r5 := { r4 with branches := sorted }
+          -- (repaired) branches between the longest and the oldest are in the new main branch up
+          -- to the height the next branch forks from them: only what is above is re-hung
+          let forkHeights : List (Nat × Int) := forkHeightsOf r4.arena ob r4.fuel lb
           let rec hang : List Nat → Repo → List Nat → M (Repo × List Nat)
             | [], r, nbs => .ok (r, nbs)
             | bi :: rest, r, nbs =>
               if bi = ob ∨ bi = lb then hang rest r nbs
+              else if (List.lookup bi forkHeights).isSome then
+                let fh := (List.lookup bi forkHeights).getD 0
+                if (r.br bi).height ≤ fh then hang rest r nbs
+                else
+                  match truncateBranch r bi mi fh with
+                  | .error (.panic m) => .error (.panic m)
+                  | .error (.err _) => .error (.err "truncate branch to main")
+                  | .ok (r', nb) =>
+                    let ni := r'.arena.length
+                    hang rest { r' with arena := r'.arena ++ [nb] } (nbs ++ [ni])
               else
                 match connectBranch r bi nbs with
                 | .error (.panic m) => .error (.panic m)
@@ -379,86 +406,108 @@ structure StepOut where
   events : List Hdr := []      -- headers sent to every subscriber, in order
 deriving Repr
 
-def processHeader (r : Repo) (h : Hdr) (hashOk : Bool) : Repo × StepOut :=
+/-- "Ensure we are on the correct chain": at the required split's height only its header passes. -/
+def requiredViolated (r : Repo) (height : Int) (id : Nat) : Bool :=
+  match r.cfg.required with
+  | some rq => height == rq.height && rq.after != id
+  | none => false
+
+/-- the difficulty-adjustment check (from `Facts.daaHeight` on, unless difficulty is disabled). -/
+def daaVerdict (r : Repo) (pb : Nat) (height : Int) (bits : Nat) : Option Verdict :=
+  if height ≥ (Facts.daaHeight : Int) && !r.disableDifficulty then
+    match targetBits r pb height with
+    | none => some (.err "calculate target")
+    | some b => if b ≠ bits then some .badBits else none
+  else none
+
+/-- Every check `ProcessHeader` makes before it mutates anything, in the order of the code:
+    `inl v` = answered with verdict `v`, nothing changed; `inr (pb, ph, last)` = accepted for
+    insertion after header `last` at height `ph` of branch `pb`. -/
+def precheck (r : Repo) (h : Hdr) (hashOk : Bool) : Verdict ⊕ (Nat × Int × HData) :=
   -- (repaired) bits the difficulty conversion cannot handle are refused up front
-  if Work.malformedBits h.bits then (r, { verdict := .badBits })
-  else if !r.disableDifficulty && !hashOk then (r, { verdict := .badWork })
+  if Work.malformedBits h.bits then .inl .badBits
+  else if !r.disableDifficulty && !hashOk then .inl .badWork
   else
     match r.branchesFind h.prev with
     | none =>
-      if r.cfg.splits.any (fun s => s.after == h.id) then (r, { verdict := .wrongChain })
-      else if r.cfg.genesisId == h.prev then (r, { verdict := .wrongChain })
-      else (r, { verdict := .unknown })
+      if r.cfg.splits.any (fun s => s.after == h.id) then .inl .wrongChain
+      else if r.cfg.genesisId == h.prev then .inl .wrongChain
+      else .inl .unknown
     | some (pb, ph) =>
       let height := ph + 1
-      if (r.branchesFind h.id).isSome then (r, { verdict := .known })
-      else if !r.disableSplit && r.cfg.splits.any (fun s => s.height == height && s.after == h.id) then (r, { verdict := .wrongChain })
-      else if !r.disableSplit && (match r.cfg.required with
-          | some rq => height == rq.height && rq.after != h.id
-          | none => false) then (r, { verdict := .wrongChain })
+      if (r.branchesFind h.id).isSome then .inl .known
+      else if !r.disableSplit && r.cfg.splits.any (fun s => s.height == height && s.after == h.id) then .inl .wrongChain
+      else if !r.disableSplit && requiredViolated r height h.id then .inl .wrongChain
       else
-        let daa : Option Verdict :=
-          if height ≥ (Facts.daaHeight : Int) && !r.disableDifficulty then
-            match targetBits r pb height with
-            | none => some (.err "calculate target")
-            | some b => if b ≠ h.bits then some .badBits else none
-          else none
-        match daa with
-        | some v => (r, { verdict := v })
+        match daaVerdict r pb height h.bits with
+        | some v => .inl v
         | none =>
-          if r.invalid.contains h.id then (r, { verdict := .invalid })
+          if r.invalid.contains h.id then .inl .invalid
           else
             match r.lastOf pb with
-            | none => (r, { verdict := .panic "Last() on empty branch" })
+            | none => .inl (.panic "Last() on empty branch")
             | some last =>
-              if last.hdr.id ≠ h.prev then
-                -- a header already follows the parent in that branch: start a new branch
-                let depth := (r.br r.longest).height - ph
-                if depth > r.cfg.maxBranchDepth then (r, { verdict := .tooDeep })
-                else
-                  match newBranch r (some pb) ph h with
-                  | .error v => (r, { verdict := v })
-                  | .ok nb =>
-                    let ni := r.arena.length
-                    let r1 := { r with arena := r.arena ++ [nb], branches := r.branches ++ [ni], heights := r.heights.set h.id (ph + 1) }
-                    match longestOf r1.arena r1.branches with
-                    | none => (r1, { verdict := .panic "Longest: Last() on empty branch" })
-                    | some lg =>
-                      if lg ≠ r1.longest then
-                        match sendBranchUpdate r1 lg r1.longest with
-                        | (evs, some e) => (r1, { verdict := .err ("send branch update: " ++ e), events := evs })
-                        | (evs, none) => ({ r1 with longest := lg }, { verdict := .ok, events := evs })
-                      else (r1, { verdict := .ok })
-              else
-                match Work.blockWork h.bits with
-                | none => (r, { verdict := .panic "Add: ConvertToDifficulty" })
-                | some w =>
-                  let b := r.br pb
-                  let b1 : Branch := { b with headers := b.headers ++ [{ hdr := h, work := last.work + w }] }
-                  let b2 : Branch := { b1 with hmap := b1.hmap.set h.id b1.height }
-                  let r1 := { (r.setBranch pb b2) with heights := r.heights.set h.id height }
-                  -- longest switch
-                  let sw : Except (Repo × StepOut) (Repo × Bool × List Hdr) :=
-                    if pb ≠ r1.longest then
-                      match longestOf r1.arena r1.branches with
-                      | none => .error (r1, { verdict := .panic "Longest: Last() on empty branch" })
-                      | some lg =>
-                        if lg ≠ r1.longest then
-                          match sendBranchUpdate r1 lg r1.longest with
-                          | (evs, some e) => .error (r1, { verdict := .err ("send branch update: " ++ e), events := evs })
-                          | (evs, none) => .ok ({ r1 with longest := lg }, true, evs)
-                        else .ok (r1, false, [])
-                    else .ok (r1, false, [])
-                  match sw with
-                  | .error x => x
-                  | .ok (r2, sent, evs) =>
-                    if pb = r2.longest then
-                      let r3 :=
-                        if Int.tmod (r2.br pb).height (Facts.autoCleanModulus : Int) = 0 then
-                          (cleanWith r2 (Facts.pruneDepth : Int)).1   -- errors are only logged
-                        else r2
-                      (r3, { verdict := .ok, events := if sent then evs else [h] })
-                    else (r2, { verdict := .ok, events := evs })
+              if last.hdr.id ≠ h.prev ∧ (r.br r.longest).height - ph > r.cfg.maxBranchDepth then .inl .tooDeep
+              else .inr (pb, ph, last)
+
+/-- `longest := Longest()` with the branch update announced to subscribers when it changes:
+    `ok (repo, headersSent, events)`, or the early return of `ProcessHeader` (state already mutated). -/
+def reselect (r1 : Repo) : Except (Repo × StepOut) (Repo × Bool × List Hdr) :=
+  match longestOf r1.arena r1.branches with
+  | none => .error (r1, { verdict := .panic "Longest: Last() on empty branch" })
+  | some lg =>
+    if lg ≠ r1.longest then
+      match sendBranchUpdate r1 lg r1.longest with
+      | (evs, some e) => .error (r1, { verdict := .err ("send branch update: " ++ e), events := evs })
+      | (evs, none) => .ok ({ r1 with longest := lg }, true, evs)
+    else .ok (r1, false, [])
+
+/-- new-branch path of `ProcessHeader`: a header already follows the parent in that branch. -/
+def forkHeader (r : Repo) (h : Hdr) (pb : Nat) (ph : Int) : Repo × StepOut :=
+  match newBranch r (some pb) ph h with
+  | .error v => (r, { verdict := v })
+  | .ok nb =>
+    let ni := r.arena.length
+    let r1 := { r with arena := r.arena ++ [nb], branches := r.branches ++ [ni], heights := r.heights.set h.id (ph + 1) }
+    match reselect r1 with
+    | .error x => x
+    | .ok (r2, _, evs) => (r2, { verdict := .ok, events := evs })
+
+/-- `Branch.Add` + heights map: the state right after the header was appended to branch `pb`. -/
+def addToBranch (r : Repo) (h : Hdr) (pb : Nat) (ph : Int) (last : HData) (w : Nat) : Repo :=
+  let b := r.br pb
+  let b1 : Branch := { b with headers := b.headers ++ [{ hdr := h, work := last.work + w }] }
+  let b2 : Branch := { b1 with hmap := b1.hmap.set h.id b1.height }
+  { (r.setBranch pb b2) with heights := r.heights.set h.id (ph + 1) }
+
+/-- extension path of `ProcessHeader`. -/
+def extendHeader (r : Repo) (h : Hdr) (pb : Nat) (ph : Int) (last : HData) : Repo × StepOut :=
+  match Work.blockWork h.bits with
+  | none => (r, { verdict := .panic "Add: ConvertToDifficulty" })
+  | some w =>
+    let r1 := addToBranch r h pb ph last w
+    let sw : Except (Repo × StepOut) (Repo × Bool × List Hdr) :=
+      if pb ≠ r1.longest then reselect r1 else .ok (r1, false, [])
+    match sw with
+    | .error x => x
+    | .ok (r2, sent, evs) =>
+      if pb = r2.longest then
+        let r3 :=
+          if Int.tmod (r2.br pb).height (Facts.autoCleanModulus : Int) = 0 then
+            (cleanWith r2 (Facts.pruneDepth : Int)).1   -- errors are only logged
+          else r2
+        (r3, { verdict := .ok, events := if sent then evs else [h] })
+      else (r2, { verdict := .ok, events := evs })
+
+/-- the mutation part of `ProcessHeader`, after every check passed. -/
+def applyHeader (r : Repo) (h : Hdr) (pb : Nat) (ph : Int) (last : HData) : Repo × StepOut :=
+  if last.hdr.id ≠ h.prev then forkHeader r h pb ph else extendHeader r h pb ph last
+
+/-- `Repository.ProcessHeader`. -/
+def processHeader (r : Repo) (h : Hdr) (hashOk : Bool) : Repo × StepOut :=
+  match precheck r h hashOk with
+  | .inl v => (r, { verdict := v })
+  | .inr (pb, ph, last) => applyHeader r h pb ph last
 
 /-! ### invalid marking (as the code is) -/
 
@@ -549,13 +598,27 @@ def loadHistorical (r : Repo) : M Repo :=
           if f = 0 then .ok r1 else go k (f - 1) r1
     go (startFile.toNat + 1) startFile.toNat r
 
+/-- the invalid list `load` installs: what storage holds, then the configured hashes not already in it. -/
+def mergedInvalid (st : Store) (cfg : Cfg) : List Nat :=
+  cfg.cfgInvalid.foldl (fun acc x => if acc.contains x then acc else acc ++ [x]) (st.invalid.getD [])
+
+/-- `VerifyHeader`: only the required split's header verifies a peer. -/
+def isRequired (r : Repo) (id : Nat) : Bool :=
+  match r.cfg.required with
+  | some rq => rq.after == id
+  | none => false
+
+def verifyHeader (r : Repo) (h : Hdr) : Verdict :=
+  if isRequired r h.id then .ok
+  else if r.cfg.splits.any (fun s => s.after == h.id) then .wrongChain
+  else if r.cfg.genesisId == h.prev then .err "Header after genesis"
+  else .unknown
+
 /-- `migrate` / `initializeWithGenesis` are handled by the driver-level `init` for now: loading
     storage without a branch index yields the error class `no-index`. -/
 def load (r0 : Repo) (depth : Int) (genesis : Hdr) : Repo × Option Fail :=
   let r := freshRepo r0
-  let inv0 := r.store.invalid.getD []
-  let inv := r.cfg.cfgInvalid.foldl (fun acc x => if acc.contains x then acc else acc ++ [x]) inv0
-  let r := { r with invalid := inv }
+  let r := { r with invalid := mergedInvalid r.store r.cfg }
   match r.store.index with
   | none =>
     -- migrate: no legacy files ⇒ initialise with genesis
